@@ -237,6 +237,23 @@ def activation(sx, tech, brs_rng, lri_rng, lrt_rng, rwt_rng, miu_rng, lto_rng,
             ninf += 1
     sx.check(ninf == 4, "traffic:not-two-chained-payloads")
     sx.reach("exchanged")
+
+    # ---- later LLCP traffic stays within the MIU the peer announced: three
+    # datagrams queued on each side, collected (aggregated if enabled) into
+    # link frames; sizes chosen so that three of them come close to MIU 128
+    for side, ctl, peer in (("I", llc_i, llc_t), ("T", llc_t, llc_i)):
+        sock = ctl.socket(LLCP_LDL)
+        ctl.bind(sock, 40)
+        for n in (50, 30, 37):
+            ctl.sendto(sock, bytes(bytearray(n)), 41, LLCP_DONTWAIT)
+        for k in range(4):
+            frame = ctl.collect()
+            if frame is None:
+                break
+            info = len(frame.encode()) - 2
+            sx.check(info <= peer.cfg['recv-miu'],
+                     "llcp-traffic:information-field-exceeds-peer-miu:%s" % side)
+    sx.reach("llcp_traffic")
     return dict(rate=rate, imiu=ini.miu, tmiu=tgt.miu, psl=psl_req is not None,
                 wt=to & 15)
 
@@ -252,6 +269,10 @@ def same_bytes(sx, a, b):
 # against a default, so that every partition stays small
 # ----------------------------------------------------------------------------
 MIU_ALL, LTO_ALL = [128, 2175], [10, 2550]
+
+
+import nfc.llcp as _llcp
+LLCP_LDL, LLCP_DONTWAIT = _llcp.LOGICAL_DATA_LINK, _llcp.MSG_DONTWAIT
 
 
 class Recorder(object):
@@ -353,7 +374,7 @@ def partitions(tier):
     return parts
 
 
-MUST_REACH = ["activated:106A", "activated:212F", "psl", "exchanged", "did", "nad", "passthrough"]
+MUST_REACH = ["activated:106A", "activated:212F", "psl", "exchanged", "did", "nad", "passthrough", "llcp_traffic"]
 BOUNDS = {
     "quick": "two real LogicalLinkController.activate() stacks (Initiator and "
     "Target) over the stub air, passive activation at 106A and at 212F; "
